@@ -583,6 +583,55 @@ def stage_foreign_runs(ctx: Ctx):
                                           {**rec, 'out_src': out.src, 'diffs': d})
 
 
+def stage_foreign_specials(ctx: Ctx):
+    """deterministic: nodes from ANOTHER formatted tree that are written in a form only their old home allows (starred arglike expressions without parentheses in a
+    subscript / call, a bare yield, a walrus, an unparenthesized tuple, a lambda, a conditional) put into sequences of other kinds of the marked tree - one, a run, or
+    the whole sequence: the reconciled tree is the edited AST and its source parses to it"""
+    import fst
+    donors = [('z[q, *a or b, *not c]\n', lambda t: t.body[0].value.slice.elts), ('f(q, *a or b, *not c)\n', lambda t: t.body[0].value.args), ('def g():\n    x = yield v\n    y = yield\n', lambda t: [t.body[0].body[0].value, t.body[0].body[1].value]),
+              ('x = (n := 1), (m := 2)\n', lambda t: t.body[0].value.elts), ('x = p, q\ny = lambda: 0\nz = r if s else t\n', lambda t: [t.body[0].value, t.body[1].value, t.body[2].value]),
+              ('for i in a, b: pass\n', lambda t: [t.body[0].iter]), ('x = [*a, *b]\n', lambda t: t.body[0].value.elts), ('x = a[b:c, d]\n', lambda t: [t.body[0].value.slice.elts[1]])]
+    targets = [('t = [p0, q0]\n', lambda t: t.body[0].value.elts), ('t = {p0, q0}\n', lambda t: t.body[0].value.elts), ('t = (p0, q0)\n', lambda t: t.body[0].value.elts), ('t = p0, q0\n', lambda t: t.body[0].value.elts),
+               ('t = h(p0, q0)\n', lambda t: t.body[0].value.args), ('t = s0[p0, q0]\n', lambda t: t.body[0].value.slice.elts), ('print(p0, q0)\n', lambda t: t.body[0].value.args),
+               ('def g():\n    return [p0, q0]\n', lambda t: t.body[0].body[0].value.elts), ('t = {k0: p0, k1: q0}\n', lambda t: t.body[0].value.values), ('t = p0 and q0\n', lambda t: t.body[0].value.values)]
+    for dsrc, dget in donors:
+        n = len(dget(ast.parse(dsrc)))
+        for tsrc, tget in targets:
+            for i in range(n):
+                for j in range(i + 1, n + 1):
+                    for at, replace in ((0, False), (1, False), (2, False), (0, True), (0, 'all')):
+                        root = fst.FST(tsrc, 'exec')
+                        root.mark()
+                        other = fst.FST(dsrc, 'exec')
+                        run = dget(other.a)[i:j]
+                        lst = tget(root.a)
+                        if replace == 'all':
+                            lst[:] = run
+                        elif replace:
+                            lst[at:at + 1] = run
+                        else:
+                            lst[at:at] = run
+                        if 'k0: p0' in tsrc and not (replace is True and j - i == 1):
+                            continue        # Dict.values must stay as long as Dict.keys
+                        if ' and ' in tsrc and len(lst) < 2:
+                            continue        # a BoolOp has two operands
+                        edited = strip_f(root.a)
+                        try:
+                            ast.parse(ast.unparse(ast.fix_missing_locations(strip_f(root.a))))      # the edited tree must be a program at all (a yield at module level is one for the parser)
+                        except Exception:
+                            continue
+                        rec = {'target': tsrc, 'donor': dsrc, 'donor_elements': [i, j], 'insert_at': at, 'replace': replace}
+                        ctx.tick(('foreign-special', tsrc, dsrc, i, j, at, replace), 'reconcile:foreign-special')
+                        try:
+                            out = root.reconcile()
+                        except Exception as e:
+                            ctx.violation(f'reconcile-raise|{type(e).__name__}|foreign-special', 'reconcile() raised on nodes from another tree', {**rec, 'error': repr(e)[:200]})
+                            continue
+                        d = cmp_ast(out.a, edited, positions=False) or reparse_diffs(out)
+                        if d:
+                            ctx.violation('reconcile-struct|foreign-special', 'the reconciled tree is not the edited AST (or its source does not parse to it)', {**rec, 'out_src': out.src, 'diffs': d})
+
+
 def stage_dict_and_try(ctx: Ctx):
     """deterministic: (a) Dict keys / values re-paired (values permuted under fixed keys, keys permuted, pairs swapped / deleted / duplicated) with keys that differ by more
     than a primitive and with `**` entries; (b) the number of except handlers / finally statements of a try changed (append / insert / delete / duplicate) while the other
@@ -834,6 +883,7 @@ def run(ctx: Ctx):
     run_guarded(ctx, stage_prims)
     run_guarded(ctx, stage_prim_fields)
     run_guarded(ctx, stage_foreign_runs)
+    run_guarded(ctx, stage_foreign_specials)
     run_guarded(ctx, stage_dict_and_try)
     run_guarded(ctx, stage_corr, progs)
 
